@@ -124,19 +124,37 @@ def build():
     K = N2 + 2 * N3
     Zc = (D1 + N1) - N1               # a composite with a cancelled leaf (stored weights {D1: 1, N1: 0})
     funcs = [D1, D2, N1, N2, N3, S, M, K, Zc]
+    MAKERS.clear()
+    MAKERS.update({6: lambda: D1 + 2 * N1, 7: lambda: D1 + D2 / 2, 8: lambda: N2 + 2 * N3, 9: lambda: (D1 + N1) - N1})
     x0, x1 = Point(), Point()
     return pep, funcs, x0, x1
+
+
+MAKERS = {}
+
+
+def registry():
+    """the functions the class-level registry still designates (what a solve would collect)"""
+    from PEPit import Function
+    out = []
+    for g in Function.list_of_functions:
+        if not isinstance(g, Function) and callable(g):       # a registry of references: what it still designates
+            g = g()
+        if isinstance(g, Function):
+            out.append(g)
+    return out
 
 
 DIRS_CACHE = {}
 
 
-def call_step(c, funcs, arg, variant):
+def call_step(c, funcs, arg, variant, getf=None):
     from PEPit import primitive_steps as ps
     gamma = scal(c["gn"], c["gd"], variant)
     eps = scal(c["en"], c["ed"], variant)
-    f = funcs[c["f"] - 1] if c["f"] else None
-    h = funcs[c["h"] - 1] if c["h"] else None
+    getf = getf or (lambda i: funcs[i - 1])
+    f = getf(c["f"]) if c["f"] else None
+    h = getf(c["h"]) if c["h"] else None
     s, o = c["step"], c["opt"]
     if s == "proximal_step":
         return ps.proximal_step(arg(c["a"]), f, gamma)
@@ -162,12 +180,24 @@ def call_step(c, funcs, arg, variant):
 
 
 def run(item):
+    """variant 0: integer scalars; 1: float scalars; 2: float scalars and every composite function is formed where it
+    is needed (step(x, D1 + 2 * N1, ...)) and not kept by the caller, as the library's own examples do"""
+    import gc, weakref
     from PEPit import Point, Expression
     warnings.simplefilter("ignore")
     variant = item.get("variant", 0)
+    fly = variant == 2
     DIRS_CACHE.clear()
     pep, funcs, x0, x1 = build()
     last = []
+    made = []                            # [index in FT, weak reference, samples seen, constraints seen]
+
+    def getf(i):
+        if fly and i in MAKERS:
+            g = MAKERS[i]()
+            made.append([i, weakref.ref(g), 0, 0])
+            return g
+        return funcs[i - 1]
 
     def arg(shape):
         if shape == "L1": return x0
@@ -188,22 +218,32 @@ def run(item):
         de = max(de, Expression.counter + ub[1])
         exc, ret = "", ()
         try:
-            ret = call_step(c, funcs, arg, variant)
+            ret = call_step(c, funcs, arg, variant, getf)
         except Exception as e:          # the outcome of a PEPit call IS the observation
             exc = type(e).__name__
         if not isinstance(ret, tuple):
             ret = (ret,)
         d = dict(exc=exc, ret=[j_obj(o) for o in ret], np=Point.counter, ne=Expression.counter, ns=[], nc=[])
+        if fly:
+            gc.collect()
+        reg = registry()
+        mine = []
         for i, f in enumerate(funcs):
-            d["ns"].append([j_sample(t) for t in f.list_of_points[ns_len[i]:]])
-            d["nc"].append([j_con(k) for k in f.list_of_constraints[nc_len[i]:]])
+            pts, cons = f.list_of_points[ns_len[i]:], f.list_of_constraints[nc_len[i]:]
             ns_len[i] = len(f.list_of_points)
             nc_len[i] = len(f.list_of_constraints)
+            for m in made:                # composites formed in the calls: what the registry still holds of them
+                g = m[1]()
+                if m[0] == i + 1 and g is not None and any(g is r for r in reg):
+                    mine.append(g)
+                    pts, cons = pts + g.list_of_points[m[2]:], cons + g.list_of_constraints[m[3]:]
+                    m[2], m[3] = len(g.list_of_points), len(g.list_of_constraints)
+            d["ns"].append([j_sample(t) for t in pts])
+            d["nc"].append([j_con(k) for k in cons])
         # samples / constraints recorded on Function objects outside the table (must stay empty)
-        from PEPit import Function
         stray = 0
-        for g in Function.list_of_functions:
-            if not any(g is f for f in funcs):
+        for g in reg:
+            if not any(g is f for f in funcs) and not any(g is f for f in mine):
                 stray += len(g.list_of_points) + len(g.list_of_constraints)
         d["stray"] = stray
         deltas.append(d)
